@@ -1,4 +1,4 @@
-(* C07 - Seeded searches are reproducible.  MODEL (no proofs here; describes /repo at 966138d).
+(* C07 - Seeded searches are reproducible.  MODEL (no proofs here; describes /repo at f809570).
 
    Two layers.
 
